@@ -7,11 +7,11 @@ import (
 	"sort"
 
 	"github.com/cossacklabs/acra/keystore"
+	v2 "github.com/cossacklabs/acra/keystore/v2/keystore"
 	v2api "github.com/cossacklabs/acra/keystore/v2/keystore/api"
 	v2fs "github.com/cossacklabs/acra/keystore/v2/keystore/filesystem"
-	v2 "github.com/cossacklabs/acra/keystore/v2/keystore"
-	backendapi "github.com/cossacklabs/acra/keystore/v2/keystore/filesystem/backend/api"
 	v2backend "github.com/cossacklabs/acra/keystore/v2/keystore/filesystem/backend"
+	backendapi "github.com/cossacklabs/acra/keystore/v2/keystore/filesystem/backend/api"
 )
 
 // Ground truth: what is *stored*, read without the functions under test.
